@@ -50,25 +50,34 @@ def main():
         if not line:
             continue
         job = json.loads(line)
-        r, w = os.pipe()
-        pid = os.fork()
-        if pid == 0:
-            try:
-                os.close(r)
-                if job.get("table") is not None:
-                    sf.set_semantic_constraints(job["table"])
-                res = [run_probe(sf, p) for p in job["probes"]]
-                data = json.dumps(res).encode()
-            except BaseException as e:
-                data = json.dumps({"zygote_error": repr(e)}).encode()
-            with os.fdopen(w, "wb") as fh:
-                fh.write(data)
-            os._exit(0)
-        os.close(w)
-        with os.fdopen(r, "rb") as fh:
-            data = fh.read()
-        os.waitpid(pid, 0)
-        out.write(data.decode() + "\n")
+        # isolate: one fresh child per probe (no probe sees what an earlier probe left behind); otherwise one child per job
+        groups = [[p] for p in job["probes"]] if job.get("isolate") else [job["probes"]]
+        results, failed = [], None
+        for probes in groups:
+            r, w = os.pipe()
+            pid = os.fork()
+            if pid == 0:
+                try:
+                    os.close(r)
+                    if job.get("table") is not None:
+                        sf.set_semantic_constraints(job["table"])
+                    res = [run_probe(sf, p) for p in probes]
+                    data = json.dumps(res).encode()
+                except BaseException as e:
+                    data = json.dumps({"zygote_error": repr(e)}).encode()
+                with os.fdopen(w, "wb") as fh:
+                    fh.write(data)
+                os._exit(0)
+            os.close(w)
+            with os.fdopen(r, "rb") as fh:
+                data = fh.read()
+            os.waitpid(pid, 0)
+            part = json.loads(data.decode())
+            if isinstance(part, dict):
+                failed = part
+                break
+            results.extend(part)
+        out.write(json.dumps(failed if failed is not None else results) + "\n")
         out.flush()
 
 
